@@ -2,6 +2,7 @@ package verifsim
 
 import (
 	"fmt"
+	"os"
 	"sort"
 	"strings"
 	"sync/atomic"
@@ -59,15 +60,17 @@ type integEngine struct {
 	w    *IntegWorld
 	pl   *procLayer
 
-	tasks   map[string]*task.Task
-	ctxs    map[string]*runner.ExecutionContext
-	ctxName map[*runner.ExecutionContext]string
-	tr      *runner.TaskRunner
-	sd      *scheduler.Scheduler
-	graph   *scheduler.ExecutionGraph
-	stages  map[string]*scheduler.Stage
-	sink    *recSink
-	esink   *recSink
+	tasks    map[string]*task.Task
+	ctxs     map[string]*runner.ExecutionContext
+	ctxName  map[*runner.ExecutionContext]string
+	tr       *runner.TaskRunner
+	sd       *scheduler.Scheduler
+	graphs   map[string]*scheduler.ExecutionGraph
+	stages   map[string]*scheduler.Stage
+	stageGID map[int64]string // goroutine -> stage it runs
+	tmpDir   string
+	sink     *recSink
+	esink    *recSink
 
 	execs    []*execRec
 	execBy   map[string]*execRec
@@ -108,6 +111,10 @@ func (e *integEngine) onEvent(ev *Event) {
 		}
 		if n > e.maxExecPar {
 			e.maxExecPar = n
+		}
+	case "stage-start", "park:stage-start":
+		if gid, ok := ev.Data.(int64); ok {
+			e.stageGID[gid] = ev.Subject
 		}
 	case "run-enter", "park:run-enter":
 		if gid, ok := ev.Data.(int64); ok {
@@ -224,10 +231,13 @@ func (e *integEngine) buildGraph(g *GraphSpec) (*scheduler.ExecutionGraph, error
 func (e *integEngine) installHooks() {
 	c := e.c
 	executor.VerifInterpOptions = []interp.RunnerOption{interp.ExecHandler(e.pl.Handler)}
-	if e.prof.UseStageStart {
-		scheduler.VerifYield = func(kind string, subj interface{}) {
-			if kind == "stage-start" {
-				c.Yield("stage-start", subj.(*scheduler.Stage).Name, nil)
+	scheduler.VerifYield = func(kind string, subj interface{}) {
+		if kind == "stage-start" {
+			gid := curGID()
+			if e.prof.UseStageStart {
+				c.Yield("stage-start", subj.(*scheduler.Stage).Name, gid)
+			} else {
+				c.NoteData("stage-start", subj.(*scheduler.Stage).Name, "", gid)
 			}
 		}
 	}
@@ -290,6 +300,8 @@ func RunIntegWorld(c *Ctl, prof *IntegProfile, w *IntegWorld, res *RunResult) *i
 		c: c, prof: prof, w: w,
 		execBy:     map[string]*execRec{},
 		stages:     map[string]*scheduler.Stage{},
+		graphs:     map[string]*scheduler.ExecutionGraph{},
+		stageGID:   map[int64]string{},
 		upState:    map[string]*int32{},
 		upBeginSeq: map[string]int{},
 		upEndSeq:   map[string]int{},
@@ -297,7 +309,9 @@ func RunIntegWorld(c *Ctl, prof *IntegProfile, w *IntegWorld, res *RunResult) *i
 	e.writing.Store("")
 	e.pl = newProcLayer(c)
 	e.pl.envF = envFilter
-	e.build()
+	if !w.ViaConfig {
+		e.build()
+	}
 	e.sink = &recSink{c: c, name: "stdout", cur: func() string { return e.writing.Load().(string) }}
 	e.esink = &recSink{c: c, name: "stderr", cur: func() string { return e.writing.Load().(string) }}
 	e.pl.onWrite = func(key string) { e.writing.Store(key) }
@@ -314,14 +328,24 @@ func RunIntegWorld(c *Ctl, prof *IntegProfile, w *IntegWorld, res *RunResult) *i
 	tr.Stdin = strings.NewReader("")
 	tr.OutputFormat = w.Format
 	e.tr = tr
-	if w.Graph != nil {
-		g, err := e.buildGraph(w.Graph)
-		if err != nil {
-			res.Skipped = "rejected_acyclic: " + err.Error()
-			c.Count("rejected_acyclic")
+	if w.ViaConfig {
+		if err := e.buildFromConfig(); err != nil {
+			res.HarnessErr = "config: " + err.Error()
 			return nil
 		}
-		e.graph = g
+		defer os.RemoveAll(e.tmpDir)
+	} else {
+		for _, gs := range w.AllGraphs() {
+			g, err := e.buildGraph(gs)
+			if err != nil {
+				res.Skipped = "rejected_acyclic: " + err.Error()
+				c.Count("rejected_acyclic")
+				return nil
+			}
+			e.graphs[gs.Name] = g
+		}
+	}
+	if len(e.graphs) > 0 {
 		e.sd = scheduler.NewScheduler(tr)
 	}
 	c.onEvent = e.onEvent
@@ -343,7 +367,7 @@ func RunIntegWorld(c *Ctl, prof *IntegProfile, w *IntegWorld, res *RunResult) *i
 			case "task":
 				err = tr.Run(e.tasks[dr.Spec.Target])
 			case "pipeline":
-				err = e.sd.Schedule(e.graph)
+				err = e.sd.Schedule(e.graphs[dr.Spec.Target])
 			}
 			c.NoteData("driver-return", dr.Key, errString(err), err)
 		}(dr)
